@@ -95,3 +95,32 @@ class Table:
         else:
             self.chk.ok(self.rule, self.name, where=self.where, cells=self.cells)
         return not self.bad
+
+
+def eval_term(t, point):
+    """numeric value (Fraction) of a rational term at a point {symbol: Fraction}; symbols missing from the point raise Undecided"""
+    def ev(p):
+        tot = Fr(0)
+        for mono, c in p.t.items():
+            v = Fr(c)
+            for s, e in mono:
+                if s not in point:
+                    raise Undecided(f"comparison involves {s}, which has no representative value in this case")
+                v *= Fr(point[s]) ** e
+            tot += v
+        return tot
+    d = ev(t.d)
+    if d == 0:
+        raise Undecided("division by zero at the representative point")
+    return ev(t.n) / d
+
+
+def atoms_at(points):
+    """CTX.atoms callback deciding  d (op) 0  by the sign of d at the current row class's representative point"""
+    def atoms(d, op):
+        pt = points[CTX.cls] if CTX.cls is not None and not isinstance(points, dict) else points
+        if isinstance(points, list) and CTX.cls is None:
+            raise Undecided("comparison outside a row context")
+        v = eval_term(d, pt)
+        return {"Lt": v < 0, "LtE": v <= 0, "Gt": v > 0, "GtE": v >= 0, "Eq": v == 0, "NotEq": v != 0}[type(op).__name__]
+    return atoms
